@@ -309,6 +309,11 @@ Definition cctx_frame_hdr (c : cctx) (size_known : bool) : list Z :=
 (* ZSTD_compressCCtx: simpleApiParams = ZSTD_CCtxParams_init_internal(level params): checksum 0, content size 1, no dictID, zstd1 *)
 Definition simple_frame_hdr : list Z := [0; 1; 0; 0].
 
+(* ZSTD_compressCCtx: neither reads nor writes the requested parameters or the attached dictionary; since fix 38ec6ea
+   ZSTD_compressBegin_internal(ZSTDb_not_buffered) closes a streaming session left open (streamStage = zcss_init), so the
+   frame that was in progress is abandoned and the next streaming call starts a new one *)
+Definition cctx_simple (c : cctx) : cctx := mkC (c_params c) S_init (c_dict c) (c_static c).
+
 (* ------------------------------------------------------------------ ZSTD_DCtx *)
 (* which dictionary a decompression context holds (round 2): dctx->dictUses (0 dont_use, 1 use_once, 2 use_indefinitely),
    what dctx->ddict points to (a referenced DDict k, the internal copy made by loadDictionary of dictionary k, the by-reference
@@ -319,6 +324,8 @@ Definition dd_empty : ddicts := mkDD 0 DK_none None 0.
 Definition dd_hasdict (x : ddicts) : bool := match dd_kind x with DK_none => false | _ => true end.
 (* ZSTD_clearDict *)
 Definition dd_clear (x : ddicts) : ddicts := mkDD 0 DK_none (dd_set x) (dd_last x).
+(* ZSTD_DCtx_reset(parameters) since fix b70602d: ZSTD_clearDict, then the DDict hash set is freed *)
+Definition dd_drop (x : ddicts) : ddicts := mkDD 0 DK_none None (dd_last x).
 Definition dd_with_last (x : ddicts) (fid : Z) : ddicts := mkDD (dd_uses x) (dd_kind x) (dd_set x) fid.
 (* ZSTD_DCtx_selectFrameDDict when `refMultipleDDicts && ddictSet`: a frame naming a referenced dictionary switches to it *)
 Definition dd_select (multi : bool) (x : ddicts) (fid : Z) : ddicts :=
@@ -418,6 +425,15 @@ Definition dctx_reset (d : dctx) (dir : Z) : dctx * result :=
   let params := Z.eqb dir z_ZSTD_reset_parameters || Z.eqb dir z_ZSTD_reset_session_and_parameters in
   let d1 := if session then dctx_set_stage d S_init else d in
   if params then
+    if stage_is_init (d_stage d1) then (dctx_reset_params (dctx_set_dict d1 (dd_drop (d_dict d1))), Ok)
+    else (d1, Err E_stage_wrong)
+  else (d1, Ok).
+(* the code before fix b70602d: ZSTD_clearDict only, the set of referenced DDicts survived the parameter reset *)
+Definition dctx_reset_keepset (d : dctx) (dir : Z) : dctx * result :=
+  let session := Z.eqb dir z_ZSTD_reset_session_only || Z.eqb dir z_ZSTD_reset_session_and_parameters in
+  let params := Z.eqb dir z_ZSTD_reset_parameters || Z.eqb dir z_ZSTD_reset_session_and_parameters in
+  let d1 := if session then dctx_set_stage d S_init else d in
+  if params then
     if stage_is_init (d_stage d1) then (dctx_reset_params (dctx_set_dict d1 (dd_clear (d_dict d1))), Ok)
     else (d1, Err E_stage_wrong)
   else (d1, Ok).
@@ -494,6 +510,26 @@ Definition dctx_dec_using_gen (stale_tables : bool) (d : dctx) (k f : Z) : dctx 
                                            (if Z.eqb k 0 then DK_none else DK_ref k) f in
        (dctx_set_stage (dctx_set_dict d x1) S_init, if ok then Ok else Err E_other).
 
+(* `ddecr k f`: ZSTD_decompress_usingDict(dctx, frame f, the bytes of dictionary k (0 = NULL)).  The tables and content of
+   dictionary k are loaded by ZSTD_decompressBegin_usingDict, which records its ID; ZSTD_decodeFrameHeader then runs
+   ZSTD_DCtx_selectFrameDDict (the context's DDict pointer may switch to a referenced DDict, nothing is loaded) and compares
+   the recorded ID with the one the frame names.  [vouch]: before fix 9260ac3 the selection overwrote the recorded ID with
+   the frame's, so the comparison passed whatever had been loaded (the frame was then decoded with the wrong dictionary:
+   the model gives no verdict for that case, see [dd_id_check]). *)
+Definition dd_switched (multi : bool) (x : ddicts) (fid : Z) : bool :=
+  match dd_set x with Some l => multi && dd_hasdict x && existsb (Z.eqb fid) l | None => false end.
+Definition dd_id_check (vouch switched : bool) (loaded fid : Z) : bool :=
+  Z.eqb fid 0 || (vouch && switched) || Z.eqb loaded fid.
+Definition dctx_dec_raw_gen (vouch : bool) (d : dctx) (k f : Z) : dctx * result :=
+  if negb (Z.eqb (d_format d) 0) then (dctx_set_stage (dctx_set_dict d (dd_with_last (d_dict d) 0)) S_init, Err E_other)
+  else let fid := frame_fid f in
+       let multi := Z.eqb (d_refMultipleDDicts d) 1 in
+       let x1 := dd_select multi (dd_with_last (d_dict d) fid) fid in
+       let pass := dd_id_check vouch (dd_switched multi (d_dict d) fid) k fid in
+       (dctx_set_stage (dctx_set_dict d x1) S_init,
+        if pass && dkind_matches (if Z.eqb k 0 then DK_none else DK_local k) f then Ok else Err E_other).
+Definition dctx_dec_raw : dctx -> Z -> Z -> dctx * result := dctx_dec_raw_gen false.
+
 Definition dctx_begin : dctx -> dctx := dctx_begin_gen false.
 Definition dctx_end : dctx -> dctx := dctx_end_gen false.
 Definition dctx_frame : dctx -> dctx := dctx_frame_gen false.
@@ -542,7 +578,9 @@ Inductive op : Set :=
 | OCSetCP (o : bool) (cp : cpar) | OCSetFP (o : bool) (fp : fpar) | OCSetP (o : bool) (cp : cpar) (fp : fpar)
 | OPInitAdv (cp : cpar) (fp : fpar)
 | ODLoad (o : bool) (k : Z) | ODRefPrefix (o : bool) (k : Z) | ODFx (o : bool) (k : Z)
-| ODDec (o : bool) (f : Z) | ODDec1 (o : bool) (fs : list Z) | ODDecU (o : bool) (k f : Z) | ODXVec (o : bool).
+| ODDec (o : bool) (f : Z) | ODDec1 (o : bool) (fs : list Z) | ODDecU (o : bool) (k f : Z) | ODXVec (o : bool)
+(* round 3 *)
+| ODDecR (o : bool) (k f : Z).
 
 Definition get_c (w : world) (o : bool) : cctx := if o then w_c1 w else w_c0 w.
 Definition put_c (w : world) (o : bool) (c : cctx) : world :=
@@ -584,7 +622,7 @@ Definition step (w : world) (x : op) : world * (result * list Z) :=
   | OCFrame o => let c := get_c w o in (put_c w o (cctx_frame c), (Ok, cctx_frame_hdr c true))
   | OCFail o => (put_c w o (cctx_frame_fail (get_c w o)), (Err E_other, []))
   | OCBad o => (w, (Err E_other, []))
-  | OCSimple o => (w, (Ok, simple_frame_hdr))   (* ZSTD_compressCCtx: neither reads nor writes the advanced parameters *)
+  | OCSimple o => (put_c w o (cctx_simple (get_c w o)), (Ok, simple_frame_hdr))
   | OCLoad o k => let '(c, r) := cctx_load (get_c w o) k in (put_c w o c, (r, []))
   | OCRefCDict o k => let '(c, r) := cctx_refcdict (get_c w o) k in (put_c w o c, (r, []))
   | OCRefPrefix o k => let '(c, r) := cctx_refprefix (get_c w o) k in (put_c w o c, (r, []))
@@ -619,6 +657,7 @@ Definition step (w : world) (x : op) : world * (result * list Z) :=
   | ODDec1 o fs => let '(d, r) := dctx_dec_oneshot (get_d w o) fs in (put_d w o d, (r, []))
   | ODDecU o k f => let '(d, r) := dctx_dec_using (get_d w o) k f in (put_d w o d, (r, []))
   | ODXVec o => (w, (Ok, dctx_xvec (get_d w o)))
+  | ODDecR o k f => let '(d, r) := dctx_dec_raw (get_d w o) k f in (put_d w o d, (r, []))
   end.
 
 Definition run (w : world) (ops : list op) : world := fold_left (fun w x => fst (step w x)) ops w.
